@@ -19,6 +19,7 @@ Driver for C19 (response sink).  Case lines (after the index):
   <path>    = m (missing) | f <hex> (a file) | d (a directory) | p (no parent directory) | F (a device refusing writes)
   Z <format> <k (T (n resp…)…)…>   (k sinks on ONE file, each with its own lock and T writer threads)
       → `ok <hex canonical file>`
+  T <n hex names…>               (a mapping configured in the application's TOML) → `<k> <k hex names as loaded>`
   P <hex text>                   (reader: `SinkRead.parse` vs `serde_json::from_str`)
       → `ok <enc value, number bits 0>` | `fail`
   X <k formats…> <response>      (a Combined sink of k file sinks, one response)
@@ -226,8 +227,58 @@ def modeP : P WriteMode := do
   | "e" => pure .error
   | _ => failure
 
+/-- a JSON string literal at the head of the text: the literal (quotes included) and the rest -/
+def takeStringLit : List Char → Option (List Char × List Char)
+  | '"' :: cs =>
+    let rec go : List Char → List Char → Option (List Char × List Char)
+      | [], _ => none
+      | '\\' :: c :: r, acc => go r (c :: '\\' :: acc)
+      | '"' :: r, acc => some (('"' :: acc).reverse, r)
+      | c :: r, acc => go r (c :: acc)
+    go cs ['"']
+  | _ => none
+
+/-- the entries `"column":"message"` of a mapping-error object after `{"csv":{`: the column literals and the
+text after the closing `}}`; `none` when the text is not of that shape -/
+partial def takeCsvErrEntries (t : List Char) (acc : List (List Char)) : Option (List (List Char) × List Char) :=
+  match t with
+  | '}' :: '}' :: r => if acc.isEmpty then some ([], r) else none
+  | _ =>
+    match takeStringLit t with
+    | none => none
+    | some (k, r1) =>
+      match r1 with
+      | ':' :: r2 =>
+        match takeStringLit r2 with
+        | none => none
+        | some (_, r3) =>
+          match r3 with
+          | ',' :: r4 => takeCsvErrEntries r4 (k :: acc)
+          | '}' :: '}' :: r4 => some ((k :: acc).reverse, r4)
+          | _ => none
+      | _ => none
+
+/-- the messages of the CSV formatter's mapping errors are not modelled (and the code lists the failed columns
+in a `HashMap`'s order): wherever a text prints such an object — `{"csv":{"column":"message",…}}` — blank the
+messages and sort the columns.  Applied to the model's text and to the real file alike. -/
+partial def maskCsvErrors (t : List Char) : List Char :=
+  let pat := "{\"csv\":{".toList
+  let rec go (t : List Char) (out : List Char) : List Char :=
+    match t with
+    | [] => out.reverse
+    | c :: r =>
+      if pat.isPrefixOf t then
+        match takeCsvErrEntries (t.drop pat.length) [] with
+        | some (ks, rest) =>
+          let sorted := (ks.toArray.qsort textLt).toList
+          let body := ",".toList.intercalate (sorted.map fun k => k ++ ":\"\"".toList)
+          go rest ((pat ++ body ++ "}}".toList).reverse ++ out)
+        | none => go r (c :: out)
+      else go r (c :: out)
+  go t []
+
 /-- the text of the file behind a sink (`-` for a device that holds nothing) -/
-def fileOut (s : FileSink) : String := if s.failing then "-" else hexOfText s.contents
+def fileOut (s : FileSink) : String := if s.failing then "-" else hexOfText (maskCsvErrors s.contents)
 
 def member : P Member := do
   let name ← JsonProto.str
@@ -355,10 +406,15 @@ def caseP : P String := do
       let asSink : FileSink := { sink with file := st.file }
       pure s!"ok {hexOfText (canonFile asSink true)}"
     | _ => pure "builderr"
+  | "T" => do
+    -- the column names of a mapping written in the application's TOML, as they arrive in the format
+    let names ← listOf JsonProto.str
+    let loaded := tomlMapping (names.map fun k => (k, CsvMapping.path ""))
+    pure (joinSp (toString loaded.length :: loaded.map fun c => JsonProto.hexOfStr c.1))
   | "P" => do
     -- the reader of Model/SinkRead.lean against serde_json::from_str on one line of text
     let line ← JsonProto.str
-    match SinkRead.parse line.toList with
+    match SinkRead.parseSerde line.toList with
     | some j => pure ("ok " ++ JsonProto.enc j)
     | none => pure "fail"
   | "X" => do
@@ -372,7 +428,7 @@ def caseP : P String := do
     | .ioError _ _ => pure "ioerr"
     | .lockError _ => pure "lock"
     | .ok ss r' =>
-      let rows := ss.map fun s => hexOfText (s.file.drop 1).flatten
+      let rows := ss.map fun s => hexOfText (maskCsvErrors (s.file.drop 1).flatten)
       pure (joinSp (["ok", toString rows.length] ++ rows ++ ["P", JsonProto.enc (canon r')]))
   | _ => failure
 
